@@ -3,6 +3,7 @@ package socks5
 import (
 	"context"
 
+
 	"github.com/enfein/mieru/v3/pkg/appctl/appctlpb"
 	"github.com/enfein/mieru/v3/pkg/egress"
 )
@@ -150,4 +151,57 @@ func vH_C12_findaction_fqdn() {
 		vAssume(int(data[4]) == n)
 		vFindAction(data)
 	}
+}
+
+// H12.2 egress rules: first match wins, after the local-destination stage.
+// Three rules with concrete, overlapping CIDR ranges (a /24 inside a /16, then
+// "*") and SYMBOLIC actions; every IPv4 destination; a user with or without
+// the private/loopback permissions.
+func vArbAction(tag string) appctlpb.EgressAction {
+	switch vNondetU8(tag) % 3 {
+	case 0:
+		return appctlpb.EgressAction_DIRECT
+	case 1:
+		return appctlpb.EgressAction_REJECT
+	}
+	return appctlpb.EgressAction_PROXY
+}
+
+func vH_C12_egress_rules() {
+	vEgressRules(false)
+	vEgressRules(true)
+}
+
+func vEgressRules(withStar bool) {
+	data := vNondetBytes("req", 10)
+	vReqHeader(data, 1)
+	a := data[4:8]
+	a1, a2, a3 := vArbAction("act"), vArbAction("act"), vArbAction("act")
+	rules := []*appctlpb.EgressRule{
+		{IpRanges: []string{"198.51.100.0/24"}, Action: &a1},
+		{IpRanges: []string{"198.51.0.0/16", "203.0.113.0/24"}, Action: &a2},
+	}
+	if withStar {
+		rules = append(rules, &appctlpb.EgressRule{IpRanges: []string{"*"}, Action: &a3})
+	}
+	allowPrivate, allowLoopback := vNondetBool("allowPrivate"), vNondetBool("allowLoopback")
+	users := map[string]*appctlpb.User{"alice": {AllowPrivateIP: &allowPrivate, AllowLoopbackIP: &allowLoopback}}
+	s := &Server{config: &Config{Users: users, Egress: &appctlpb.Egress{Rules: rules}}}
+	act := s.FindAction(context.Background(), egress.Input{Protocol: appctlpb.ProxyProtocol_SOCKS5_PROXY_PROTOCOL, Data: data, Env: map[string]string{"user": "alice"}})
+	loop, priv := vClassify(data)
+	if (loop && !allowLoopback) || (priv && !allowPrivate) {
+		vAssert(act.Action == appctlpb.EgressAction_REJECT, "local destinations are refused before any rule is consulted (a DIRECT or PROXY rule does not re-open them)")
+		return
+	}
+	want := appctlpb.EgressAction_DIRECT
+	if withStar {
+		want = a3
+	}
+	if (a[0] == 198 && a[1] == 51) || (a[0] == 203 && a[1] == 0 && a[2] == 113) {
+		want = a2
+	}
+	if a[0] == 198 && a[1] == 51 && a[2] == 100 {
+		want = a1
+	}
+	vAssert(act.Action == want, "egress rules are applied in order, first match wins; no match => DIRECT")
 }
